@@ -235,6 +235,14 @@ Theorem C14_tokens_partial_now : forall (T : Type) (sigt : bytes -> option (list
                      end).
 Proof. exact build_code_tokens_now. Qed.
 
+(* the stripping step of the concrete model, before the text is lexed again: whatever statements of
+   the tree are taken for game loop functions and wherever their token ranges lie, the significant
+   tokens that remain are a subsequence of the file's significant tokens - stripping removes, it never
+   adds, reorders or alters a token *)
+Theorem C14_strip_only_removes : forall stats ts ts',
+  strip_stats stats ts = Ok ts' -> subseq (sig_toks_of ts') (sig_toks_of ts).
+Proof. exact strip_stats_removes. Qed.
+
 Print Assumptions C14_structure.
 Print Assumptions C14_structure_bytes.
 Print Assumptions C14_unstripped_block.
@@ -249,6 +257,7 @@ Print Assumptions C14_block_tokens_partial.
 Print Assumptions C14_terminates_now.
 Print Assumptions C14_dfs_exact.
 Print Assumptions C14_tokens_partial_now.
+Print Assumptions C14_strip_only_removes.
 
 (* non-vacuity: a main program and two packages that require each other (a cycle), one game loop
    function each, one package without a final newline; the build succeeds, embeds each package once
